@@ -34,66 +34,10 @@ fn rule_matches(f: &NetworkFilter, req: &Request) -> bool {
     implrun::net::rule_matches(f, req)
 }
 
-#[derive(Debug, Clone, PartialEq)]
-struct V {
-    matched: bool,
-    important: bool,
-    exception: bool,
-    filter: bool,
-}
-
-fn category(f: &NetworkFilter) -> &'static str {
-    if f.is_csp() {
-        "csp"
-    } else if f.is_removeparam() {
-        "removeparam"
-    } else if f.is_generic_hide() {
-        "generichide"
-    } else if f.is_exception() {
-        "exception"
-    } else if f.is_important() && (!f.is_redirect() || f.also_block_redirect()) {
-        "important"
-    } else if adblock::verif_hooks::filter_tag(f).is_some() && !f.is_redirect() {
-        "tagged"
-    } else if (f.is_redirect() && f.also_block_redirect()) || !f.is_redirect() {
-        "normal"
-    } else {
-        "none"
-    }
-}
-
-/// Rule-by-rule evaluation with the documented precedence (independent of the engine's index).
-fn spec(rules: &[NetworkFilter], tags: &HashSet<String>, req: &Request) -> V {
-    spec_p(rules, tags, req, false, false)
-}
-/// The same for the subset query (check_network_request_subset): `mr` = an earlier engine matched,
-/// `fc` = force_check_exceptions.
-fn spec_p(rules: &[NetworkFilter], tags: &HashSet<String>, req: &Request, mr: bool, fc: bool) -> V {
-    if !req.is_supported {
-        return V { matched: false, important: false, exception: false, filter: false };
-    }
-    let bad: HashSet<u64> = rules.iter().filter(|f| f.is_badfilter()).map(|f| f.get_id_without_badfilter()).collect();
-    let live: Vec<&NetworkFilter> = rules.iter().filter(|f| !f.is_badfilter() && !bad.contains(&f.get_id())).collect();
-    let tag_ok = |f: &NetworkFilter, t: &HashSet<String>| adblock::verif_hooks::filter_tag(f).map(|x| t.contains(x)).unwrap_or(true);
-    let none = HashSet::new();
-    let imp = live.iter().any(|f| category(f) == "important" && tag_ok(f, tags) && rule_matches(f, req));
-    let blk = !mr
-        && live.iter().any(|f| {
-            (category(f) == "tagged" && tag_ok(f, tags) && rule_matches(f, req))
-                || (category(f) == "normal" && tag_ok(f, &none) && rule_matches(f, req))
-        });
-    let exc = live.iter().any(|f| category(f) == "exception" && tag_ok(f, tags) && rule_matches(f, req));
-    let excp = !imp && exc && (blk || mr || fc);
-    V { matched: !excp && (imp || blk || mr), important: imp, exception: excp, filter: imp || blk }
-}
-
-fn engine_verdict(e: &Engine, req: &Request) -> V {
-    engine_verdict_p(e, req, false, false)
-}
-fn engine_verdict_p(e: &Engine, req: &Request, mr: bool, fc: bool) -> V {
-    let r = if !mr && !fc { e.check_network_request(req) } else { e.check_network_request_subset(req, mr, fc) };
-    V { matched: r.matched, important: r.important, exception: r.exception.is_some(), filter: r.filter.is_some() }
-}
+// (category, spec, spec_p: the shared rule-by-rule reference of implrun::net, which reads tags off
+// the rule text and cross-checks $badfilter twins and every per-rule match against the text)
+fn spec(rules: &[NetworkFilter], tags: &HashSet<String>, req: &Request) -> V { spec_verdict(rules, tags, req) }
+fn spec_p(rules: &[NetworkFilter], tags: &HashSet<String>, req: &Request, mr: bool, fc: bool) -> V { spec_verdict_p(rules, tags, req, mr, fc) }
 
 fn build(lines: &[String], tags: &[&str], optimize: bool) -> Engine {
     let mut e = Engine::from_rules_parametrised(lines.iter(), Default::default(), true, optimize);
@@ -160,6 +104,13 @@ fn modifier_list(r: &mut Rng) -> Vec<String> {
             8 => format!("@@{}{}", p, if tag.is_empty() { String::new() } else { format!("${}", &tag[1..]) }),
             _ => gen::rule(r, true),
         });
+    }
+    // one rule of the list again with `badfilter` appended: that rule is not in force
+    if r.chance(1, 3) {
+        let base = v[r.below(v.len())].clone();
+        if !base.contains("badfilter") {
+            v.push(if base.contains('$') { format!("{},badfilter", base) } else { format!("{}$badfilter", base) });
+        }
     }
     v
 }
